@@ -19,7 +19,7 @@ FAMILY = ("C18", "C19", "C23")
 HARNESS = ["proxy/server/sessionconn_test.go"]
 RUN = "^TestVerifSessionConnReplay$"
 
-INVARIANTS = ("TypeOK C18_TxStatementOnTxMaster C18_OneConnPerSlice C18_EndReachesExactlyTx C18_ReleasedAfterEnd "
+INVARIANTS = ("TypeOK C18_TxStatementOnTxMaster C18_OneConnPerSlice C18_EndReachesExactlyTx C18_ReleasedAfterEnd C18_SavepointOnTxOnly "
               "C19_NoLeak C19_NoDangling C19_NothingHeldOutsideTx C19_NoOpenTxInPool C19_EndClean "
               "C23_Pinned C23_PinnedRole C23_NsChange C23_NoSpuriousClose ModeSeparation")
 STATE_INVARIANTS = "TypeOK C19_NoLeak C19_NoDangling C19_NothingHeldOutsideTx C19_NoOpenTxInPool C19_EndClean C23_PinnedRole ModeSeparation"
@@ -71,7 +71,9 @@ def manifest(pid, title_text):
                       "are of three kinds (statement error, protocol error = connection discarded on return, connection "
                       "closed under the session); execution timeouts are represented by the third kind, real timers are "
                       "not driven. The real Session.Run loop is driven packet by packet over a fake client socket (no handshake); "
-                      "streamed results are exercised for unsharded reads (one extra chunk); multi-result streaming, savepoints, "
+                      "streamed results are exercised for unsharded reads (one extra chunk); SAVEPOINT / ROLLBACK TO / RELEASE "
+                      "SAVEPOINT (one name, fault-free, sessions without keep-session) are exercised including the replay of the "
+                      "recorded savepoint on connections that join the transaction later; multi-result streaming, "
                       "COM_FIELD_LIST and prepared statements are not "
                       "exercised. Read-only users in keep-session mode are pinned to a replica by design of "
                       "getBackendKsConn; C18's master clause is not applied to them.",
@@ -250,7 +252,7 @@ class Family:
 
         def sink(c):
             for x in c["cmds"]:
-                a = x["k"] if x["k"] not in ("unshard", "shard") else "%s/%s" % (x["k"], x["kind"])
+                a = x["k"] if x["k"] not in ("unshard", "shard", "savepoint") else "%s/%s" % (x["k"], x["kind"])
                 counts[a] = counts.get(a, 0) + 1
                 if x["f"]["op"] != "none":
                     fa = "fault:%s/%s" % (x["f"]["op"], x["f"]["kind"])
@@ -364,7 +366,14 @@ class Family:
             ctx.sample(nf3[len(nf3) // 2])
             sims = self.generate(5, ALL_FOPS, sim=80, ns=2)
             ctx.sample(sims[0])
-            self.replay(cases + known_cases + nf3 + sims, "bfs2+bfs3endfault+sim5", 800)
+            sp3 = []
+            if self.pid != "C23":
+                # transaction + SAVEPOINT + a statement with a statement-level fault: the fault hits the replay of the recorded
+                # savepoint on a connection that joins the transaction, or the statement itself
+                sp3 = self.generate(3, '{"exec", "init"}', users='{"rw"}', ns=0,
+                                    sample=lambda c: 1.0 if any(x["k"] == "savepoint" for x in c["cmds"]) and
+                                    any(x["f"]["op"] != "none" for x in c["cmds"]) else 0.0)
+            self.replay(cases + known_cases + nf3 + sims + sp3, "bfs2+bfs3endfault+sim5+savepointfault3", 800)
             self.validate_clean(700)
             self.validate_rejected_sample(2)
         else:
@@ -381,11 +390,17 @@ class Family:
             ctx.sample(nf4[len(nf4) // 2])
             sims = self.generate(6, ALL_FOPS, sim=1500, ns=2)
             ctx.sample(sims[0])
-            self.replay(nf4 + sims, "bfs4nofault+sim6", 3500)
+            sp4 = []
+            if self.pid != "C23":
+                sp4 = self.generate(4, '{"exec", "init", "get", "begin"}', users='{"rw", "rws"}', ns=0, timeout=1500,
+                                    sample=lambda c: 0.5 if any(x["k"] == "savepoint" for x in c["cmds"]) and
+                                    any(x["f"]["op"] != "none" for x in c["cmds"]) else 0.0)
+            self.replay(nf4 + sims + sp4, "bfs4nofault+sim6+savepointfault4", 3500)
             self.validate_clean(10000)
             self.validate_rejected_sample(12)
         want = ["begin", "commit", "rollback", "setac0", "setac1", "unshard/read", "unshard/write", "unshard/lockread", "unshard/stream", "shard/read",
                 "shard/write", "ping", "quit", "disconnect", "nschange", "nschange-during-command", "order-dependent"] + \
+               ([] if self.pid == "C23" else ["savepoint/sp", "savepoint/rollbackto", "savepoint/release"]) + \
                ["fault:%s" % f for f in ("get/err", "begin/broken", "setac/broken", "exec/err", "exec/broken", "exec/closed",
                                          "commit/broken", "rollback/broken", "ping/broken", "sync/broken", "init/broken")]
         if self.pid == "C23":
@@ -395,7 +410,7 @@ class Family:
         if zero:
             ctx.notes.append("command paths / faults never enabled in the generated behaviours: %s" % zero)
         ctx.cov["distinct_nontrivial"] = len(self.nontriv)
-        ctx.cov["rule"] = ("behaviours = command sequences (BEGIN/COMMIT/ROLLBACK/SET autocommit/unsharded and sharded statements/"
+        ctx.cov["rule"] = ("behaviours = command sequences (BEGIN/COMMIT/ROLLBACK/SET autocommit/SAVEPOINT forms/unsharded and sharded statements/"
                            "PING/QUIT/disconnect/namespace change, each with at most one fault that fires) enumerated by TLC for "
                            "every user kind and keep-session mode; non-trivial = a fault fires or the namespace changes, and at "
                            "least one statement runs inside a transaction or on a pinned connection")
